@@ -375,6 +375,52 @@ func checkC07(c *Ctx) {
 							recv := sliceHas(sx, isSelect) || sliceHas(sy, isSelect)
 							return mine && recv
 						})
+						if !g {
+							// the comparison as a predicate made by a closure factory
+							// (`agreesWithUs := sameViewAs(members)` … `if agreesWithUs(peers)`): the literal returns
+							// the equality of two rendered lists, one from what it captured (the own list), the
+							// other from its argument (the received one)
+							g = hasFact(FactsAt(b), func(f Fact) bool {
+								if f.Op != 0 || !f.True {
+									return false
+								}
+								pc, isC := f.Bool.(*ssa.Call)
+								if !isC || pc.Call.IsInvoke() || pc.Call.StaticCallee() != nil {
+									return false
+								}
+								mc, _ := closureLiteral(pc.Call.Value)
+								if mc == nil {
+									return false
+								}
+								lit := mc.Fn.(*ssa.Function)
+								var eq *ssa.BinOp
+								nRet := 0
+								for _, li := range instrsOf(lit) {
+									if r, isR := li.(*ssa.Return); isR && len(r.Results) == 1 {
+										nRet++
+										eq, _ = r.Results[0].(*ssa.BinOp)
+									}
+								}
+								if nRet != 1 || eq == nil || eq.Op != token.EQL || !isString(eq.X.Type()) {
+									return false
+								}
+								sx, sy := sl.Slice(eq.X), sl.Slice(eq.Y)
+								mine := sx[arg] || sy[arg]
+								usesParam := false
+								for _, lp := range lit.Params {
+									if sx[lp] || sy[lp] {
+										usesParam = true
+									}
+								}
+								recv := false
+								for _, a := range pc.Call.Args {
+									if sliceHas(sl.Slice(a), isSelect) {
+										recv = true
+									}
+								}
+								return mine && usesParam && recv
+							})
+						}
 						if k != 1 || !g {
 							okDec = false
 						}
